@@ -457,7 +457,7 @@ def r14_7(ctx):
             raise AnalysisError(f"unexpected index into ts: {idx!r}", where=astq.loc(fi2, node))
         from ..interp import Obj
         from ..interp import Intrinsic
-        ts_obj = Obj("ts", getitem_hook=getitem, attrs={"__len__": Intrinsic("len", lambda it, a, k, n, f2: F(3))})
+        ts_obj = Obj("ts", getitem_hook=getitem, attrs=ik.ts_attrs(F(3)))
         path, hooks = ik.run_body(model, True, list(prologue) + list(w.body), {},
                                   env_override={"self": self_obj, "ts": ts_obj, "out_t": F(5)})
         if not steps:
